@@ -9,6 +9,7 @@ import RpyModel.Drv.C20
 import RpyModel.Drv.C04
 import RpyModel.Drv.C10
 import RpyModel.Drv.C19
+import RpyModel.Drv.C03
 open Lean
 
 def dispatch (R : Type) [Num R] [Inhabited R] [NatCast R] (kind : String) (j : Json) : Except String Json :=
@@ -22,6 +23,9 @@ def dispatch (R : Type) [Num R] [Inhabited R] [NatCast R] (kind : String) (j : J
   | "online_train" => Drv.handleOnlineTrain R j
   | "ip_fit" => Drv.handleIpFit R j
   | "metrics" => Drv.handleMetrics R j
+  | "graph_expr" => Drv.handleGraphExpr j
+  | "graph_check" => Drv.handleGraphCheck j
+  | "graph_prog" => Drv.handleGraphProg j
   | "eff_matrix" => Drv.handleEffMatrix R j
   | "rho_diag" => Drv.handleRhoDiag R j
   | "readout_forward" => Drv.handleReadoutForward R j
